@@ -543,6 +543,29 @@ def cheap_requests(rng, n):
     r["cons"], r["priors"] = [], None
     r["budget"] = 3 * r["n_obs"]
     reqs.append(r)
+  for j in range(max(4, n // 60)):
+    # double-typed constraints listed BEFORE a tight int-typed one (the int rows are then not the first rows of the half-space
+    # matrix), many points per call: the decoder's integer-feasibility test must look at the right rows for every one of them
+    na, nb = rng.randint(4, 6), rng.randint(4, 6)
+    comps = [dict(var_type="double", elements=[0.0, 1.0]), dict(var_type="int", elements=[0, na]), dict(var_type="double", elements=[0.0, 2.0]),
+             dict(var_type="int", elements=[0, nb])]
+    if j % 2:
+      comps.append(dict(var_type="categorical", elements=[1, 3, 4]))
+    d = len(comps)
+    def wv(pairs):
+      w = [0.0] * d
+      for k, v in pairs:
+        w[k] = v
+      return w
+    cons = [dict(weights=wv([(0, 1.0), (2, 1.0)]), rhs=0.5, var_type="double")]
+    if j % 3 == 0:
+      cons.append(dict(weights=wv([(0, -1.0), (2, -0.5)]), rhs=-1.75, var_type="double"))
+    cons.append(dict(weights=[int(v) for v in wv([(1, 1), (3, 1)])], rhs=float(na + nb - rng.choice([2, 3])), var_type="int"))
+    r = U.gen_request(rng, ["random", "spe", "spe_search"][j % 3], n_obs=rng.randint(12, 20), constraints="no", priors="no", discrete_only=False,
+                      num_to_sample=rng.choice([60, 120]), npend=0, ntask=0, failp=0.0)
+    r["comps"], r["cons"], r["priors"] = comps, cons, None
+    r["budget"] = 50 * r["n_obs"]      # initialisation phase: the model-free draws, decoded point by point
+    reqs.append(r)
   for j in range(max(4, n // 90)):
     # multitask request on a thin int-constrained band: fewer points than requested may come back - one task cost per RETURNED point
     r = short_batch_request()
